@@ -129,6 +129,7 @@ std::vector<Report> &reports();      // accumulated over runs until cleared
 void clear_reports();
 const RunStats &stats();
 uint64_t now_step();
+uint64_t total_steps();  // scheduling steps executed by all runs of this process so far
 void on_body_done(void (*cb)(int thread));   // hook: called when a thread's body returned
 void on_thread_exit(void (*cb)(int thread)); // hook: called from the sentinel destructor
 void on_report(void (*cb)(const Report &r)); // hook: called for every oracle hit as it is recorded
